@@ -1046,9 +1046,126 @@ def rule_fmt_dispatch(model):
     return r
 
 
+class _TS(BaseState):
+    def __init__(self, cut=False):
+        self.cut = cut
+
+    def key(self):
+        return (self.cut,)
+
+    def copy(self):
+        n = _TS(self.cut)
+        n.trace = self.trace
+        return n
+
+
+class _TruncDomain(Domain):
+    """The function that truncates, in the scenario len(V) <rel> S."""
+
+    def __init__(self, v, s_, rel):
+        self.v, self.s, self.rel = v, s_, rel
+
+    def truth(self, e):
+        if isinstance(e, ast.UnaryOp) and isinstance(e.op, ast.Not):
+            t = self.truth(e.operand)
+            return None if t is None else not t
+        if isinstance(e, ast.Compare) and len(e.ops) == 1:
+            l, r_ = norm(e.left), norm(e.comparators[0])
+            rel = None
+            if l == f'len({self.v})' and r_ == self.s:
+                rel = self.rel
+            elif r_ == f'len({self.v})' and l == self.s:
+                rel = {'lt': 'gt', 'gt': 'lt', 'eq': 'eq'}[self.rel]
+            if rel is None:
+                return None
+            return {ast.Lt: rel == 'lt', ast.Gt: rel == 'gt',
+                    ast.LtE: rel != 'gt', ast.GtE: rel != 'lt',
+                    ast.Eq: rel == 'eq', ast.NotEq: rel != 'eq'}.get(
+                        type(e.ops[0]))
+        return None
+
+    def branch(self, test, st):
+        t = self.truth(test)
+        if t is None:
+            return [(True, st), (False, st)]
+        return [(t, st)]
+
+    def raises(self, node, st):
+        return []
+
+    def _cuts(self, node):
+        for x in ast.walk(node):
+            if isinstance(x, ast.Subscript) and norm(x.value) == self.v \
+                    and isinstance(x.slice, ast.Slice) and \
+                    x.slice.upper is not None and \
+                    norm(x.slice.upper) == self.s and \
+                    isinstance(x.ctx, ast.Load):
+                return True
+        return False
+
+    def effects(self, stmt, st):
+        if self._cuts(stmt) and not st.cut:
+            st = st.copy()
+            st.cut = True
+        return st
+
+    def on_return(self, node, st):
+        if node.value is not None and self._cuts(node.value):
+            st = st.copy()
+            st.cut = True
+        return [], st
+
+
+def rule_size_boundary(model):
+    r = RuleResult('C15.R12', 'size= truncates only a text that is LONGER '
+                   'than size: a text of exactly size characters (and any '
+                   'shorter one) is inserted whole, without the etc text')
+    ren = model.func('DT_Var', 'Var.render')
+    n = 0
+    for f in model.closure(ren):
+        pairs = set()
+        for c in own_nodes(f.node):
+            if isinstance(c, ast.Compare) and len(c.ops) == 1:
+                for a_, b_ in ((c.left, c.comparators[0]),
+                               (c.comparators[0], c.left)):
+                    if isinstance(a_, ast.Call) and norm(a_.func) == 'len' \
+                            and len(a_.args) == 1 and isinstance(
+                                a_.args[0], ast.Name) and isinstance(
+                                b_, ast.Name):
+                        pairs.add((a_.args[0].id, b_.id))
+        for v, sz in sorted(pairs):
+            probe = _TruncDomain(v, sz, 'gt')
+            if not any(probe._cuts(x) for x in own_nodes(f.node)):
+                continue
+            n += 1
+            res = {}
+            for rel in ('lt', 'eq', 'gt'):
+                dom = _TruncDomain(v, sz, rel)
+                outs = Interp(dom).run(f.node, _TS())
+                ends = [o for o in outs if o.kind in (NORMAL, 'return')]
+                res[rel] = (sum(1 for o in ends if o.state.cut), len(ends))
+            r.instance(f.where, f'len({v}) vs {sz}',
+                       'cut paths/paths: ' + ', '.join(
+                           f'{k}: {a}/{b}' for k, (a, b) in res.items()))
+            for rel, what in (('lt', 'shorter than'), ('eq', 'exactly')):
+                if res[rel][0]:
+                    r.finding(f.where, f'len({v}) vs {sz}', f'a text that '
+                              f'is {what} size characters long is cut '
+                              '(and gets the etc text appended): the test '
+                              'that guards the truncation is off by one',
+                              node=f.node, ctx=f)
+            if not res['gt'][0]:
+                r.finding(f.where, f'len({v}) vs {sz}', 'a text longer than '
+                          'size is not truncated', node=f.node, ctx=f)
+    if n < 1:
+        raise AnalysisError('C15.R12: the size truncation of dtml-var was '
+                            'not found')
+    return r
+
+
 RULES = [rule_table, rule_stages, rule_agreements, rule_membership,
          rule_pipeline_order, rule_missing, rule_format_verbatim,
-         rule_fmt_dispatch, rule_frozen_options]
+         rule_fmt_dispatch, rule_frozen_options, rule_size_boundary]
 EXPLANATION = (
     'Table queries on the modifier table and the option grammar of '
     'dtml-var, iteration-source query, statement-order check of the stage '
